@@ -2019,6 +2019,9 @@ class Interp:
                     return CondSeq(items, pending)
                 return self.unknown("filtered-comprehension", n)
             if isinstance(n, ast.SetComp):
+                if all(isinstance(x, Sc) and x.e is not None for x in items):
+                    # a set of known scalars: membership is equality with one of them
+                    return PSet(sym.Or(*[sym.Cmp("==", sym.IV(PSet.VAR), x.e) for x in items]) if items else sym.FALSE)
                 return Bag(sym.Choice([generic_elem(x) for x in items]) if items else sym.Opq("empty", ()), None, False, None)
             return Seq(items, "list")
         self.assign(g.target, elem(), sub, n)
@@ -2122,6 +2125,20 @@ class Interp:
             if isinstance(a, StrV) and isinstance(b, DictV) and b.generic is None:
                 r = a.s in b.d
                 return Sc(sym.Bool(r if isinstance(op, ast.In) else not r))
+            if isinstance(a, Sc) and a.e is not None and isinstance(b, PSet):
+                # membership in a set given by its predicate
+                c = sym.subst_ivar_expr(b.pred, PSet.VAR, a.e)
+                if c is not None:
+                    d = self.decide(c)
+                    if d is not None:
+                        c = sym.Bool(d)
+                    return Sc(c if isinstance(op, ast.In) else sym.Not(c))
+            if isinstance(a, Sc) and a.e is not None and isinstance(b, Seq) and all(isinstance(x, Sc) and x.e is not None for x in b.items):
+                c = sym.Or(*[sym.Cmp("==", a.e, x.e) for x in b.items]) if b.items else sym.FALSE
+                d = self.decide(c)
+                if d is not None:
+                    c = sym.Bool(d)
+                return Sc(c if isinstance(op, ast.In) else sym.Not(c))
             return Sc(sym.Opq("config", (), fresh("in")))
         name = {ast.Lt: "<", ast.LtE: "<=", ast.Gt: ">", ast.GtE: ">=", ast.Eq: "==", ast.NotEq: "!="}.get(type(op))
         if name is None:
